@@ -1,6 +1,12 @@
 //! nbharness — runs request lines (one per stdin line: `<stream> <op> <arg>*`) against the
 //! real num-bigint built from /repo's working tree and prints one canonical result line each.
 mod wire;
+mod c06;
+#[cfg(feature = "rand")]
+mod c18;
+mod c10;
+mod c17;
+mod c09;
 mod c05;
 mod c01;
 mod c15;
@@ -15,6 +21,12 @@ fn handlers() -> Vec<(&'static str, Handler)> {
         ("C01", c01::handle as Handler),
         ("C15", c15::handle as Handler),
         ("C05", c05::handle as Handler),
+        ("C09", c09::handle as Handler),
+        ("C17", c17::handle as Handler),
+        ("C10", c10::handle as Handler),
+        #[cfg(feature = "rand")]
+        ("C18", c18::handle as Handler),
+        ("C06", c06::handle as Handler),
     ]
 }
 
